@@ -99,7 +99,9 @@ inline Registry& registry()
     return r;
 }
 
-enum TrackedFlavour { copy_move = 0, move_only = 1, copy_only = 2 };
+// trivial_default: defaulted (trivial) default constructor, user-provided copy/move/destructor - the shape
+// etl::is_trivially_copy_constructible mis-classifies (it only looks at default construction)
+enum TrackedFlavour { copy_move = 0, move_only = 1, copy_only = 2, trivial_default = 3 };
 
 /// Instrumented element.  F selects which special members exist.  `tag` distinguishes
 /// alternative types (variant<TrackedA, TrackedB>) without changing behaviour.
@@ -107,7 +109,15 @@ template <int F, int Tag = 0>
 struct Tracked {
     int v;
 
-    Tracked() : v(0) { registry().construct(this); }
+    Tracked()
+        requires(F == trivial_default)
+    = default;
+    Tracked()
+        requires(F != trivial_default)
+        : v(0)
+    {
+        registry().construct(this);
+    }
     explicit(false) Tracked(int x) : v(x) { registry().construct(this); }
 
     Tracked(Tracked const& o)
